@@ -346,6 +346,11 @@ def fnarg_child(arg):
         res["passed"] = mod.caller(2, wrap(mod.outside))
     except Exception as e:
         res["passed"] = "raise:%s:%s" % (type(e).__name__, str(e)[:200])
+    try:
+        mod.caller(3)
+        res["not_passed_afterwards"] = "ok"
+    except UndeclaredDependencyError:
+        res["not_passed_afterwards"] = "undeclared"
     res["closure"] = sorted(f.qualified_name_without_version.split(":")[-1]
                             for f in mod.caller.dependencies().transitive_memento_fn_dependencies())
     return res
@@ -361,6 +366,9 @@ def run_fnarg(case, out, fail):
             fail("transitive memento dependencies differ from reachability in the reference graph", "fnarg module: %s" % res["closure"])
         if res["not_passed"] != "undeclared":
             fail("a call outside the static closure is not refused", "hidden call to a function that was not passed: %s" % res["not_passed"])
+        if res["not_passed_afterwards"] != "undeclared":
+            fail("a call outside the static closure is not refused",
+                 "hidden call to a function that had been passed as an argument (%s) to an EARLIER call: %s" % (how, res["not_passed_afterwards"]))
         if res["passed"] != 2 + 1 + 2 + 100:
             fail("a memento function passed as an argument (%s) cannot be called" % how, "outcome %s" % (res["passed"],))
         out["nontrivial"].append("fnarg:" + how)
